@@ -55,18 +55,26 @@ Qed.
 
 (* ---------- the __all__ scan ---------- *)
 
+Lemma all_assign_mem mfn n v : all_assign_of mfn n = Some v -> In all_name (mfn n).
+Proof.
+  destruct n; simpl; try discriminate.
+  - destruct (mem_str all_name (mfn (NAssign ts v0))) eqn:E; [|discriminate]. intros _. apply mem_str_In. exact E.
+  - destruct v0 as [v0|]; [|discriminate].
+    destruct (mem_str all_name (mfn (NAnnAssign t (Some v0)))) eqn:E; [|discriminate]. intros _. apply mem_str_In. exact E.
+Qed.
+
 Lemma scan_all_app mfn a b g acc :
   scan_all mfn (a ++ b) g acc = scan_all mfn b (fst (scan_all mfn a g acc)) (snd (scan_all mfn a g acc)).
 Proof.
   revert g acc. induction a as [|n a IH]; intros g acc; simpl; [reflexivity|].
+  destruct (all_assign_of mfn n) as [[l|]|]; try apply IH.
   destruct n; try apply IH.
-  - destruct (mem_str all_name (mfn (NAssign ts v))); [destruct v|]; apply IH.
-  - destruct (is_all_aug t && g); [destruct v|]; apply IH.
+  destruct (is_all_aug t && g); [destruct v|]; apply IH.
 Qed.
 
-(* no later plain assignment binds __all__ *)
+(* no later plain or annotated assignment binds __all__ *)
 Definition no_all_assign (mfn : node -> list str) (ns : list node) : Prop :=
-  forall ts v, In (NAssign ts v) ns -> ~ In all_name (mfn (NAssign ts v)).
+  forall n, In n ns -> all_assign_of mfn n = None.
 
 (* the entries appended by the `__all__ += <literal>` statements of ns;
    None if one of them is not a literal *)
@@ -84,7 +92,7 @@ Fixpoint aug_literals (ns : list node) : option (list (option str)) :=
   end.
 
 Lemma no_all_assign_cons mfn n ns : no_all_assign mfn (n :: ns) -> no_all_assign mfn ns.
-Proof. intros H ts v Hin. apply H. right. exact Hin. Qed.
+Proof. intros H n' Hin. apply H. right. exact Hin. Qed.
 
 Lemma scan_all_good_tail mfn post acc ls :
   no_all_assign mfn post -> aug_literals post = Some ls ->
@@ -93,15 +101,13 @@ Proof.
   revert acc ls. induction post as [|n post IH]; intros acc ls Hno Haug; simpl in *.
   - inversion Haug. rewrite app_nil_r. reflexivity.
   - pose proof (no_all_assign_cons _ _ _ Hno) as Hno'.
+    rewrite (Hno n (or_introl eq_refl)).
     destruct n; try (apply IH; assumption).
-    + assert (mem_str all_name (mfn (NAssign ts v)) = false) as ->.
-      { apply mem_str_false. apply Hno. left. reflexivity. }
-      apply IH; assumption.
-    + destruct (is_all_aug t) eqn:Et; simpl.
-      * destruct v as [l|]; [|discriminate].
-        destruct (aug_literals post) as [ls'|] eqn:El; [|discriminate].
-        inversion Haug; subst. rewrite (IH (acc ++ l) ls' Hno' eq_refl), app_assoc. reflexivity.
-      * apply IH; assumption.
+    destruct (is_all_aug t) eqn:Et; simpl.
+    + destruct v as [l|]; [|discriminate].
+      destruct (aug_literals post) as [ls'|] eqn:El; [|discriminate].
+      inversion Haug; subst. rewrite (IH (acc ++ l) ls' Hno' eq_refl), app_assoc. reflexivity.
+    + apply IH; assumption.
 Qed.
 
 Lemma scan_all_bad_tail mfn post acc :
@@ -109,11 +115,9 @@ Lemma scan_all_bad_tail mfn post acc :
 Proof.
   revert acc. induction post as [|n post IH]; intros acc Hno; simpl; [reflexivity|].
   pose proof (no_all_assign_cons _ _ _ Hno) as Hno'.
+  rewrite (Hno n (or_introl eq_refl)).
   destruct n; try (apply IH; assumption).
-  - assert (mem_str all_name (mfn (NAssign ts v)) = false) as ->.
-    { apply mem_str_false. apply Hno. left. reflexivity. }
-    apply IH; assumption.
-  - rewrite andb_false_r. apply IH; assumption.
+  rewrite andb_false_r. apply IH; assumption.
 Qed.
 
 (* a failing `__all__ += ...` after a good assignment spoils it for good *)
@@ -123,61 +127,78 @@ Lemma scan_all_aug_fail mfn post acc :
 Proof.
   revert acc. induction post as [|n post IH]; intros acc Hno Haug; simpl in *; [discriminate|].
   pose proof (no_all_assign_cons _ _ _ Hno) as Hno'.
+  rewrite (Hno n (or_introl eq_refl)).
   destruct n; try (apply IH; assumption).
-  - assert (mem_str all_name (mfn (NAssign ts v)) = false) as ->.
-    { apply mem_str_false. apply Hno. left. reflexivity. }
-    apply IH; assumption.
-  - destruct (is_all_aug t) eqn:Et; simpl.
-    + destruct v as [l|].
-      * destruct (aug_literals post) eqn:El; [discriminate|]. apply IH; [assumption|reflexivity].
-      * apply scan_all_bad_tail. assumption.
-    + apply IH; assumption.
+  destruct (is_all_aug t) eqn:Et; simpl.
+  - destruct v as [l|].
+    + destruct (aug_literals post) eqn:El; [discriminate|]. apply IH; [assumption|reflexivity].
+    + apply scan_all_bad_tail. assumption.
+  - apply IH; assumption.
 Qed.
 
 Lemma members_app mfn a b : members_with mfn (a ++ b) = members_with mfn a ++ members_with mfn b.
 Proof. unfold members_with. apply flat_map_app. Qed.
 
-Lemma all_scan_last_literal mfn pre ts l0 post ls :
-  In all_name (mfn (NAssign ts (LitOK l0))) ->
-  no_all_assign mfn post -> aug_literals post = Some ls ->
-  all_scan mfn (pre ++ NAssign ts (LitOK l0) :: post) = (true, l0 ++ ls).
+Lemma gate_open mfn pre n v post :
+  all_assign_of mfn n = Some v -> mem_str all_name (members_with mfn (pre ++ n :: post)) = true.
 Proof.
-  intros Hin Hno Haug. unfold all_scan.
-  assert (mem_str all_name (members_with mfn (pre ++ NAssign ts (LitOK l0) :: post)) = true) as ->.
-  { apply mem_str_In. rewrite members_app. apply in_or_app. right.
-    unfold members_with. simpl. apply in_or_app. left. exact Hin. }
-  rewrite scan_all_app. simpl.
-  assert (mem_str all_name (mfn (NAssign ts (LitOK l0))) = true) as -> by (apply mem_str_In; exact Hin).
+  intros H. apply mem_str_In. rewrite members_app. apply in_or_app. right.
+  unfold members_with. simpl. apply in_or_app. left. eapply all_assign_mem. exact H.
+Qed.
+
+Lemma all_scan_last_literal mfn pre n l0 post ls :
+  all_assign_of mfn n = Some (LitOK l0) ->
+  no_all_assign mfn post -> aug_literals post = Some ls ->
+  all_scan mfn (pre ++ n :: post) = (true, l0 ++ ls).
+Proof.
+  intros Hin Hno Haug. unfold all_scan. rewrite (gate_open mfn pre n _ post Hin).
+  rewrite scan_all_app. simpl. rewrite Hin.
   apply scan_all_good_tail; assumption.
 Qed.
 
 (* ---------- all_literal ---------- *)
 
-Theorem all_literal name is_init ex pre ts l0 post ls entries :
-  In all_name (flat_map target_names ts) ->
+(* n is the last statement assigning __all__ - plain (`__all__ = v`, also as one of several targets) or
+   annotated (`__all__: T = v`) - and v is a literal *)
+Theorem all_literal name is_init ex pre n l0 post ls entries :
+  all_assign_of member_from_node n = Some (LitOK l0) ->
   no_all_assign member_from_node post ->
   aug_literals post = Some ls ->
   all_str (l0 ++ ls) = Some entries ->
-  exists l, exports name is_init ex (pre ++ NAssign ts (LitOK l0) :: post) = Some l /\
+  exists l, exports name is_init ex (pre ++ n :: post) = Some l /\
             forall x, In x l <-> (In x entries /\ is_private x = false /\ has_dot x = false).
 Proof.
   intros Hin Hno Haug Hstr. unfold exports, exports_with.
-  rewrite (all_scan_last_literal member_from_node pre ts l0 post ls Hin Hno Haug).
+  rewrite (all_scan_last_literal member_from_node pre n l0 post ls Hin Hno Haug).
   rewrite Hstr. eexists. split; [reflexivity|]. intros x. apply public_filter_In.
 Qed.
 
 (* a non-string entry makes the scan raise (AttributeError on n.startswith) *)
-Theorem all_literal_nonstring name is_init ex pre ts l0 post ls :
-  In all_name (flat_map target_names ts) ->
+Theorem all_literal_nonstring name is_init ex pre n l0 post ls :
+  all_assign_of member_from_node n = Some (LitOK l0) ->
   no_all_assign member_from_node post ->
   aug_literals post = Some ls ->
   In None (l0 ++ ls) ->
-  exports name is_init ex (pre ++ NAssign ts (LitOK l0) :: post) = None.
+  exports name is_init ex (pre ++ n :: post) = None.
 Proof.
   intros Hin Hno Haug Hnone. unfold exports, exports_with.
-  rewrite (all_scan_last_literal member_from_node pre ts l0 post ls Hin Hno Haug).
+  rewrite (all_scan_last_literal member_from_node pre n l0 post ls Hin Hno Haug).
   apply all_str_None in Hnone. rewrite Hnone. reflexivity.
 Qed.
+
+(* what all_assign_of means on the two statement forms *)
+Lemma all_assign_plain ts v :
+  In all_name (flat_map target_names ts) -> all_assign_of member_from_node (NAssign ts v) = Some v.
+Proof. intros H. simpl. apply mem_str_In in H. rewrite H. reflexivity. Qed.
+
+Lemma all_assign_annotated t v :
+  In all_name (target_names t) -> all_assign_of member_from_node (NAnnAssign t (Some v)) = Some v.
+Proof. intros H. simpl. apply mem_str_In in H. rewrite H. reflexivity. Qed.
+
+Lemma all_assign_forms : forall ts t v,
+  (In all_name (flat_map target_names ts) -> all_assign_of member_from_node (NAssign ts v) = Some v) /\
+  (In all_name (target_names t) -> all_assign_of member_from_node (NAnnAssign t (Some v)) = Some v).
+Proof. intros ts t v. split; [apply all_assign_plain|apply all_assign_annotated]. Qed.
 
 (* ---------- when is __all__ "not good" ---------- *)
 
@@ -187,42 +208,36 @@ Proof.
   intros H. unfold all_scan. apply mem_str_false in H. rewrite H. reflexivity.
 Qed.
 
-Lemma not_good_nonliteral mfn pre ts post :
-  In all_name (mfn (NAssign ts LitFail)) -> no_all_assign mfn post ->
-  fst (all_scan mfn (pre ++ NAssign ts LitFail :: post)) = false.
+Lemma not_good_nonliteral mfn pre n post :
+  all_assign_of mfn n = Some LitFail -> no_all_assign mfn post ->
+  fst (all_scan mfn (pre ++ n :: post)) = false.
 Proof.
-  intros Hin Hno. unfold all_scan.
-  destruct (mem_str all_name (members_with mfn (pre ++ NAssign ts LitFail :: post))); [|reflexivity].
-  rewrite scan_all_app. simpl.
-  assert (mem_str all_name (mfn (NAssign ts LitFail)) = true) as -> by (apply mem_str_In; exact Hin).
-  apply scan_all_bad_tail. exact Hno.
+  intros Hin Hno. unfold all_scan. rewrite (gate_open mfn pre n _ post Hin).
+  rewrite scan_all_app. simpl. rewrite Hin. apply scan_all_bad_tail. exact Hno.
 Qed.
 
-Lemma not_good_aug_nonliteral mfn pre ts l0 post :
-  In all_name (mfn (NAssign ts (LitOK l0))) -> no_all_assign mfn post -> aug_literals post = None ->
-  fst (all_scan mfn (pre ++ NAssign ts (LitOK l0) :: post)) = false.
+Lemma not_good_aug_nonliteral mfn pre n l0 post :
+  all_assign_of mfn n = Some (LitOK l0) -> no_all_assign mfn post -> aug_literals post = None ->
+  fst (all_scan mfn (pre ++ n :: post)) = false.
 Proof.
-  intros Hin Hno Haug. unfold all_scan.
-  destruct (mem_str all_name (members_with mfn (pre ++ NAssign ts (LitOK l0) :: post))); [|reflexivity].
-  rewrite scan_all_app. simpl.
-  assert (mem_str all_name (mfn (NAssign ts (LitOK l0))) = true) as -> by (apply mem_str_In; exact Hin).
-  apply scan_all_aug_fail; assumption.
+  intros Hin Hno Haug. unfold all_scan. rewrite (gate_open mfn pre n _ post Hin).
+  rewrite scan_all_app. simpl. rewrite Hin. apply scan_all_aug_fail; assumption.
 Qed.
 
 Lemma not_good_cases : forall ns,
   (~ In all_name (members ns) -> fst (all_scan member_from_node ns) = false) /\
-  (forall pre ts post, ns = pre ++ NAssign ts LitFail :: post ->
-     In all_name (flat_map target_names ts) -> no_all_assign member_from_node post ->
+  (forall pre n post, ns = pre ++ n :: post ->
+     all_assign_of member_from_node n = Some LitFail -> no_all_assign member_from_node post ->
      fst (all_scan member_from_node ns) = false) /\
-  (forall pre ts l0 post, ns = pre ++ NAssign ts (LitOK l0) :: post ->
-     In all_name (flat_map target_names ts) -> no_all_assign member_from_node post ->
+  (forall pre n l0 post, ns = pre ++ n :: post ->
+     all_assign_of member_from_node n = Some (LitOK l0) -> no_all_assign member_from_node post ->
      aug_literals post = None ->
      fst (all_scan member_from_node ns) = false).
 Proof.
   intros ns. split; [|split].
   - exact (not_good_no_all_name member_from_node ns).
-  - intros pre ts post ->. exact (not_good_nonliteral member_from_node pre ts post).
-  - intros pre ts l0 post ->. exact (not_good_aug_nonliteral member_from_node pre ts l0 post).
+  - intros pre n post ->. exact (not_good_nonliteral member_from_node pre n post).
+  - intros pre n l0 post ->. exact (not_good_aug_nonliteral member_from_node pre n l0 post).
 Qed.
 
 (* ---------- no_all ---------- *)
@@ -432,7 +447,7 @@ Definition s_m : str := [109]%N.
 (* F18: before the repair, `async def af(): ...`, `c: int = 3`, `a, b = 1, 2` were not scanned
    although the names are public, top-level and bound *)
 Definition f18_module : list node :=
-  [NAsyncFunctionDef s_af; NAnnAssign (TName s_c) true; NAssign [TSeq [TName s_a; TName s_b]] LitFail].
+  [NAsyncFunctionDef s_af; NAnnAssign (TName s_c) (Some LitFail); NAssign [TSeq [TName s_a; TName s_b]] LitFail].
 
 Example F18_v0_misses_bound_public_names :
   exports_v0 s_m false (fun _ => false) f18_module = Some [] /\
